@@ -50,6 +50,8 @@ def assume_natural(it, st, T, vals):
         st.assume(z3.Not(z3.And(*zs)) if zs else z3.BoolVal(False))
 
 URLSAFE = '[A-Za-z0-9_.*>,\\-]+'
+import re as _re
+NOT_URLSAFE = ''.join(chr(i) for i in range(128) if not _re.fullmatch(URLSAFE, chr(i)))     # recorded structurally as exclusions of the leaves
 def run(it, st, case):
     _, T, route = case
     x, vals = C.mk_typed(it, st, T)
@@ -63,7 +65,7 @@ def run(it, st, case):
             if c is False: st.assume(z3.BoolVal(False))
             elif c is not True: st.assume(c.z)
             for a in st.norm(v).atoms:
-                if isinstance(a, Var): st.excl.setdefault(a.name, set()).update(' %+#;&=~\t\n\r'); st.nonempty.add(a.name)
+                if isinstance(a, Var): st.excl.setdefault(a.name, set()).update(NOT_URLSAFE); st.nonempty.add(a.name)
     if not st.feasible(): return 'ok'
     Sid = C.sid_class(it); name = f'C02:rebuild-from-{route}'
     try:
